@@ -7,7 +7,7 @@ META = {
     'technique': 'TLA+ least-fixpoint operator Region (Paint.tla) evaluated by TLC on real PAINT results; TLC enumerates ALL border bitmaps of small grids '
                  'x seeds (Paint_MC), each drawn inside a VIEW of that size on a real Session and PAINTed',
     'text': 'Paint_MC checks the fixpoint laws of Region on every 3x3 bitmap x seed (and on the 4x4 sample) and prints each case; the harness draws every case '
-            'on the real screen (tiled, one VIEW per case), PAINTs it, reads the screen back through Session.get_pixels() and Paint_Trace.tla judges the '
+            'on the real screen (tiled, one VIEW per case), PAINTs it, reads the screen back (Session.get_pixels() / the visible page buffer behind it) and Paint_Trace.tla judges the '
             'observed before/after grids: changed subset of Region(seed), changed pixels carry the fill attribute, and the whole region is filled when it held '
             'no pixel of the fill attribute. Larger random pictures (mazes, spirals, thin diagonal walls, open regions touching the viewport edge, noise in the '
             'fill attribute, seeds on the border and outside the viewport, VIEW and VIEW SCREEN) up to 24x24 (thorough 40x30) in every graphics mode are validated the same way.',
@@ -126,7 +126,7 @@ class Painter(object):
                 ox, oy = (x0, y0) if absolute else (0, 0)
                 self.draw_grid(ox, oy, c['grid'], colours)
                 self.flush()
-                snap = g.visible()
+                snap = bytes(g.page(g.vpage))
                 if prev is not None:
                     event(i - 1, pos, chunk, prev, snap)
                 prev = snap
@@ -136,7 +136,11 @@ class Painter(object):
                     self.q('PAINT (%d,%d),%d,%d' % (ox + sx, oy + sy, fill, border))
             self.q('VIEW')
             self.flush()
-            event(len(chunk) - 1, pos, chunk, prev, g.visible())
+            last = g.visible()
+            # per-case snapshots use the page accessor behind Session.get_pixels(); once per screenful both are compared
+            if last != bytes(g.page(g.vpage)):
+                raise core.MachineryError('Session.get_pixels() differs from Display.pages[vpage].pixels')
+            event(len(chunk) - 1, pos, chunk, prev, last)
 
     def picture(self, rng, maxw, maxh):
         """One random picture in a random viewport."""
